@@ -16,6 +16,27 @@ def consts(c, **more):
     return d
 
 
+def race_tops(report):
+    """The innermost slip function of each of the two accesses of a race report (the detector cannot always restore the
+    stack of the earlier access: then '?')."""
+    import re
+    tops, cur = [], None
+    for line in report.splitlines():
+        if re.match(r"^(Read|Write|Previous read|Previous write|Atomic|Previous atomic)", line.strip()) and " at 0x" in line:
+            if cur is not None:
+                tops.append(cur or "?")
+            cur = ""
+        elif line.startswith(("Goroutine", "Location")):
+            if cur is not None:
+                tops.append(cur or "?")
+                cur = None
+        elif cur == "" and "github.com/ohler55/slip" in line:
+            cur = line.strip().rstrip("()").split("github.com/ohler55/")[-1]
+    if cur is not None:
+        tops.append(cur or "?")
+    return tops[:2]
+
+
 def run(tier, seed):
     rep = common.Report(PROP, tier, seed)
     vdrive = common.build_harness()
@@ -160,9 +181,8 @@ def run(tier, seed):
                 e["id"] = len(stress_events) + 1
                 stress_events.append(e)
             for r in reports:
-                import re
-                frames = re.findall(r"(github\.com/ohler55/slip[\w./()*-]*)\(\)\n\s+(\S+?):(\d+)", r)
-                key = " <- ".join(f"{fn.split('/')[-1]}" for fn, _, _ in frames[:2]) or "no slip frame"
+                tops = race_tops(r)
+                key = " / ".join(tops) if tops else "no slip frame"
                 races.setdefault(key, []).append((gmp, r))
     r = common.run_tlc_with_files(SPEC, "ConcStress", "ConcStress.cfg", {"traces.ndjson": stress_events}, timeout=3000, heap="3g")
     found = list(common.emitted(r["out"], prefix="RESULT"))
@@ -177,12 +197,13 @@ def run(tier, seed):
     for key, lst in races.items():
         if key == "no slip frame":
             continue
-        # known: one of the two accesses of every report of this kind is in a frame the finding names
-        f = next((f for f in findings if f.get("race_frames") and all(any(fr in rpt for fr in f["race_frames"]) for _, rpt in lst)), None)
+        # known: the innermost slip function of one of the two accesses is one a finding names
+        tops = key.split(" / ")
+        f = next((f for f in findings if f.get("race_tops") and any(t in f["race_tops"] for t in tops)), None)
         if f:
             hit.setdefault(f["feature"], []).append(key)
         else:
-            rep.violation({"property": PROP, "race": key, "gomaxprocs": lst[0][0], "report": lst[0][1][:6000], "reports": len(lst)},
+            rep.violation({"property": PROP, "race": key, "gomaxprocs": lst[0][0], "report": lst[0][1][:6000], "reports": len(lst), },
                           f"data race reported by the Go race detector in slip's own frames: {key} ({len(lst)} reports, first with GOMAXPROCS={lst[0][0]})")
     for f in findings:
         if f["feature"] in hit:
